@@ -179,6 +179,13 @@ def str_method(interp, st, s, name, args, kwargs, node):
             ghost = st.ghost.get("str_lower")
             if ghost:
                 return ghost(interp, st, s)
+        if name == "isdigit" and not args:
+            # ASCII digits only (A3): the embedded tables are ASCII
+            interp.assumed.add("A3 str.isdigit(): non-empty and all characters in 0-9 (ASCII text)")
+            return z3.InRe(s, DIGITS)
+        if name == "capitalize" and not args:
+            interp.assumed.add("A3 str.capitalize(): uninterpreted function of the text")
+            return z3.Function("str_capitalize", z3.StringSort(), z3.StringSort())(s)
         if name == "split":
             sp = st.ghost.get("str_split")
             if sp:
